@@ -133,7 +133,8 @@ Record state := mkState
     g_reduced : list Z;        (* values received by the reducer function *)
     g_rdrained : list Z;       (* values received by the wrapper's drain(collector) *)
     g_peak : nat;              (* max number of mapper functions running at once *)
-    g_cancels : list err;      (* every error passed to cancel (ErrCancelWithNil for nil) *)
+    g_cancels : list err;      (* the error of every cancel call that entered the once body
+                                  (ErrCancelWithNil for nil); ECtx when Main took the ctx branch *)
     g_panics : list pval }.    (* every panic raised in a user function *)
 
 Definition init (c : config) : state :=
@@ -341,7 +342,7 @@ Definition user_step (c : config) (r : role) (s : state) (p : pc) : option (stat
       else if guard_open s then Some (s, SendPend y rest) else Some (s, Gate rest)
     | UCancel e, RMap | UCancel e, RRed =>
       if foreach c then Some (s, Gate rest)
-      else Some (log_cancel s (err_of e), CancelPend e rest)
+      else Some (s, CancelPend e rest)
     | URecv, RRed => Some (s, RecvPend false rest)
     | URecvAll, RRed => Some (s, RecvPend true rest)
     | _, _ => Some (s, Gate rest)          (* action not available to this role: skipped *)
@@ -354,7 +355,7 @@ Definition user_step (c : config) (r : role) (s : state) (p : pc) : option (stat
     end
   | CancelPend e rest =>
     match cstate s with
-    | CNone => Some (set_cancel s CBusy (Some (err_of e)), Draining rest)
+    | CNone => Some (set_cancel (log_cancel s (err_of e)) CBusy (Some (err_of e)), Draining rest)
     | CBusy => None
     | CDone => Some (s, Gate rest)
     end
@@ -365,9 +366,13 @@ Definition user_step (c : config) (r : role) (s : state) (p : pc) : option (stat
     | None => None
     end
   | RecvPend all rest =>
-    match coll s with
-    | v :: tl => Some (coll_pop s true v tl, if all then RecvPend true rest else Gate rest)
-    | [] => if coll_closed s then Some (s, Gate rest) else None
+    match r with
+    | RRed =>
+      match coll s with
+      | v :: tl => Some (coll_pop s true v tl, if all then RecvPend true rest else Gate rest)
+      | [] => if coll_closed s then Some (s, Gate rest) else None
+      end
+    | _ => None
     end
   | PanicPend _ =>
     match variant_of c with
@@ -462,12 +467,13 @@ Definition out_result (s : state) (v : option Z) : outcome :=
   | None => match v with Some y => OVal y | None => ONoOutput end
   end.
 
-(* a pending send of the reducer on output *)
+(* a pending send of the reducer on output (only while output is open) *)
 Definition out_take (s : state) : option (Z * state) :=
-  match redpc s with
-  | SendPend y r => Some (y, set_red s (Gate r))
-  | _ => None
-  end.
+  if finished s then None      (* close(output) wakes a blocked sender with a panic *)
+  else match redpc s with
+       | SendPend y r => Some (y, set_red s (Gate r))
+       | _ => None
+       end.
 
 Definition fixedb (c : config) : bool :=
   match variant_of c with VFixed => true | _ => false end.
@@ -573,3 +579,9 @@ Definition labels (s : state) : list label :=
 (* no thread can move (the context event is the environment's, not a thread) *)
 Definition stuck (c : config) (s : state) : bool :=
   forallb (fun l => match step c s l with None => true | Some _ => false end) (labels s).
+
+(* the items a generator script sends / the values a script writes, in order *)
+Fixpoint all_sends (l : list uact) : list Z :=
+  match l with USend x :: tl => x :: all_sends tl | _ :: tl => all_sends tl | [] => [] end.
+Fixpoint all_writes (l : list uact) : list Z :=
+  match l with UWrite y :: tl => y :: all_writes tl | _ :: tl => all_writes tl | [] => [] end.
